@@ -16,6 +16,10 @@
  */
 #include "peg_compile.c"
 
+#ifndef C1_KIND_LO
+#define C1_KIND_LO 0
+#define C1_KIND_HI 3
+#endif
 #define MKJ(x, t, v) do { (x).type = (t); (x).as.u64 = (v); } while (0)
 
 static JanetTable T_ROOT, T_MID, T_NEW, T_DEF, T_USER;
@@ -140,7 +144,7 @@ static void c1_case(int32_t n0c, int32_t capc) {
   { JanetStringHead *h = malloc(sizeof(JanetStringHead) + 6); __CPROVER_assume(h != NULL);
     slen = nd_i32(); __CPROVER_assume(slen >= 0 && slen <= 5); h->length = slen; sdata = h->data;
     buf.count = slen; buf.capacity = 6; buf.data = (uint8_t *) sdata; }
-  int kind = nd_int();
+  int kind = nd_int(); __CPROVER_assume(kind >= C1_KIND_LO && kind <= C1_KIND_HI);
   if (kind == 0) MKJ(peg, JANET_BOOLEAN, nd_int() ? 1 : 0);
   else if (kind == 1) { peg.type = JANET_NUMBER; peg.as.number = nd_double(); }
   else if (kind == 2) { peg.type = JANET_STRING; peg.as.pointer = (void *) sdata; }
@@ -155,20 +159,26 @@ static void c1_case(int32_t n0c, int32_t capc) {
   if (kind == 0) {
     post_rule(&B, 2);
     OKW(W(0) == (peg.as.u64 & 1 ? RULE_NCHAR : RULE_NOTNCHAR) && W(1) == 0, "true = [RULE_NCHAR, 0] (always matches), false = [RULE_NOTNCHAR, 0] (never matches)");
+#if C1_KIND_LO <= 0
     REACH("peg_compile1 returns (boolean)");
+#endif
   } else if (kind == 1) {
     post_rule(&B, 2);
     OKW(g_ic == 1 && JEQ(g_i_arg[0], peg), "the count comes from peg_getinteger (non-integers raise)");
     int64_t n = g_i_ret[0];
     OKW(n >= 0 ? (W(0) == RULE_NCHAR && W(1) == (uint32_t) n) : (W(0) == RULE_NOTNCHAR && (int64_t) W(1) == -n), "n >= 0: [RULE_NCHAR, n]; n < 0: [RULE_NOTNCHAR, -n]");
+#if C1_KIND_LO <= 1 && C1_KIND_HI >= 1
     if (n >= 0) REACH("peg_compile1 returns (n)");
     if (n < 0) REACH("peg_compile1 returns (-n)");
+#endif
   } else {
     __CPROVER_assert(g_bytes_calls == 1 && g_bytes_len == (uint32_t) slen && g_bytes_ptr == sdata, "C12 literal: emit_bytes gets the string's / buffer's own bytes and length");
     g_len = (uint32_t) CNT(B.bytecode);
     __CPROVER_assert(B.bytecode[g_n0] == RULE_LITERAL && B.bytecode[g_n0 + 1] == (uint32_t) slen && g_len == g_n0 + 2 + (((uint32_t) slen + 3) >> 2), "C12 literal: the literal rule starts at the returned index");
+#if C1_KIND_HI >= 3
     if (kind == 2) REACH("peg_compile1 returns (string)");
     if (kind == 3) REACH("peg_compile1 returns (buffer)");
+#endif
   }
 
 #elif defined(C1_cache)
